@@ -57,7 +57,7 @@ func H_C05_bind() {
 	}
 	vals := [][]byte{refInt(a), refStr(bstr), refLong(c)}
 	perm := zPerms3[vChoice("perm", 6)]
-	drop := vChoice("drop", 4) - 1 // -1: none
+	drop := vChoice("drop", 4) - 1   // -1: none
 	addAt := vChoice("addAt", 5) - 1 // -1: none, else position 0..3 in the wire definition
 	var unknown []byte
 	switch vChoice("unknownKind", 5) {
